@@ -92,7 +92,8 @@ func newIncomingContext(ctx context.Context, header http.Header) (context.Contex
 
 func setOutgoingHeader(header http.Header, md metadata.MD) {
 	for k, vs := range md {
-		if isReservedHeader(k) {
+		// Header names are case-insensitive: Grpc-Status is grpc-status.
+		if isReservedHeader(strings.ToLower(k)) {
 			continue
 		}
 
